@@ -201,6 +201,13 @@ func (r *rollbackMitigation) startObserve(groupID int) {
 
 	r.loadVbUUIDMap()
 
+	if r.closed {
+		// stopped while the failover logs were still being collected: Stop() did not wait for this
+		// observer (it had no timer yet), so it must not start polling now
+		logger.Log.Debug("closed before observe started")
+		return
+	}
+
 	r.observeTimer = time.NewTicker(r.config.RollbackMitigation.Interval)
 	for {
 		select {
@@ -272,6 +279,12 @@ func (r *rollbackMitigation) loadVbUUIDMap() {
 
 	err := eg.Wait()
 	if err != nil {
+		if r.closed {
+			// stopped meanwhile, the connections are being closed: not a failure of the observer
+			logger.Log.Debug("closed while loading vbuuid map, err: %v", err)
+			return
+		}
+
 		logger.Log.Error("error while get load vbuuid map, err: %v", err)
 		panic(err)
 	}
